@@ -117,5 +117,11 @@ theorem codegenAfter_skeletons : Skeletons.CodegenAfterShape := Skeletons.codege
 theorem checkerBefore_skeletons : Skeletons.CheckerBeforeShape := Skeletons.checkerBefore_shape
 theorem checkerAfter_skeletons : Skeletons.CheckerAfterShape := Skeletons.checkerAfter_shape
 theorem patternEval_skeletons : Skeletons.PatternEvalShape := Skeletons.patternEval_shape
+theorem f_checker_checker_skeletons : Skeletons.F_checker_checkerShape := Skeletons.f_checker_checker_shape
+theorem f_codegen_codegen_skeletons : Skeletons.F_codegen_codegenShape := Skeletons.f_codegen_codegen_shape
+theorem f_parser_driver_skeletons : Skeletons.F_parser_driverShape := Skeletons.f_parser_driver_shape
+theorem f_ast_ast_skeletons : Skeletons.F_ast_astShape := Skeletons.f_ast_ast_shape
+theorem f_ast_walk_skeletons : Skeletons.F_ast_walkShape := Skeletons.f_ast_walk_shape
+theorem f_position_position_skeletons : Skeletons.F_position_positionShape := Skeletons.f_position_position_shape
 
 end MtailVerif.C03
